@@ -4,7 +4,7 @@ cd "$(dirname "$0")/.."
 tier=${1:-quick}; seed=${2:-0}; shift; shift
 for i in 01 02 03 04 05 06 07 08 09 10 11 12 13 14 15 16 17 18 19 20; do
   s=$(date +%s)
-  out=$(VERIF_SEED=$seed ./check C$i $tier "$@" 2>&1); rc=$?
+  out=$(VERIF_SEED=$seed timeout ${VERIF_TIMEOUT:-3600} ./check C$i $tier "$@" 2>&1); rc=$?
   e=$(date +%s)
   [ $rc -ne 0 ] && echo "$out" > /var/tmp/verif-fail-C$i-seed$seed.log
   echo "C$i rc=$rc $((e-s))s $(echo "$out" | grep -c '^VIOLATION') violations $(echo "$out" | grep -c '^KNOWN-FINDING') known $(echo "$out" | grep -c HARNESS) harness | $(echo "$out" | grep '^\[C' | cut -c1-150)"
